@@ -34,12 +34,12 @@ CLAIMED = {
             "DESIGN.md 6/C05"),
     "C06": ("exploration",
             "adversarial lookup-proof builder against honest directories; oracle: accepted => equals model.latest",
-            "Classes A1-A7 (old version with freshness forged from every ancestor, altered fields, cross-label/version/epoch material, marker games, VRF swaps, single-point sub-proof mutations); honest proof must be accepted first.",
+            "Classes A1-A8 (old version with freshness forged from every ancestor, altered fields, cross-label/version/epoch material, marker games, VRF swaps, single-point sub-proof mutations, claimed node labels with an altered bit length); honest proof must be accepted first.",
             "Honest roots per C01; finite attack family; no cryptographic reasoning.",
             "DESIGN.md 6/C06"),
     "C07": ("exploration",
             "adversarial history-proof builder against honest directories and a dishonest server (missing/late stale markers); oracle: accepted => equals the model's list",
-            "Classes H1-H8 incl. tombstones under both verifier modes; dishonest trees must make verification fail for histories covering the corrupted retirement.",
+            "Classes H1-H8 (+H1b: absence of an existing future marker shown for the same bits with a shorter bit length) incl. tombstones under both verifier modes; dishonest trees must make verification fail for histories covering the corrupted retirement.",
             "Finite attack family; F10 (tombstoned version-1 epoch unbound under AllowMissingValues) is a listed known finding.",
             "DESIGN.md 6/C07"),
     "C08": ("exploration",
@@ -152,12 +152,12 @@ def main():
         }],
         "checks": checks,
         "not_applicable": na,
-        "notes": "All checks: ./check <ID> quick|thorough; exit 0 held, 1 violation (VIOLATION line + replay file), 2 inconclusive. Known findings: known_findings.json.",
+        "notes": "All checks: ./check <ID> quick|thorough; exit 0 held, 1 violation (VIOLATION line + replay file), 2 inconclusive. Thorough additionally runs sanitize.sh (dev-profile overflow checks, ThreadSanitizer, AddressSanitizer, Miri, valgrind memcheck sub-runs of the same monitors; DESIGN.md section 14). Known findings: known_findings.json. Seeded changes used to test the checks: seeded/<id>/ (DESIGN.md section 15).",
     }
     json.dump(man, open(os.path.join(ROOT, "MANIFEST.json"), "w"), indent=1)
     print("wrote MANIFEST.json with", len(checks), "checks,", len(na), "not_applicable")
 
-HOOK_COMMITS = ["141cb13"]
+HOOK_COMMITS = ["141cb13", "ecbdba5"]
 
 if __name__ == "__main__":
     main()
